@@ -11,7 +11,7 @@ Not decided: wall-clock behaviour of the reactor.
 import ast
 
 from ..model import self_attr, unparse, walk_body_shallow
-from .util import call_name, call_recv, calls_in, evaluated_unconditionally, kwarg, need, node_assign_value, norm, registrations, where
+from .util import bootstrap_names, call_name, call_recv, calls_in, evaluated_unconditionally, kwarg, need, node_assign_value, norm, registrations, where
 
 TECHNIQUE = "timer armed/released pairing on the CFG, registration-kind and free-variable-before-registration checks, " \
             "who-may-call"
@@ -101,7 +101,7 @@ def run(ctx):
     r = ctx.rule("R6", "every bootstrap request is chained with addTimeout(self.timeout, self.reactor)", 1, "A")
     for f in prog.functions(module="client"):
         for x in calls_in(f, "request"):
-            if call_recv(x) == "protocol":
+            if call_recv(x) == bootstrap_names(f)[1] and bootstrap_names(f)[1] is not None:
                 par = [y for y in walk_body_shallow(f.body) if isinstance(y, ast.Call) and call_name(y) == "addTimeout" and
                        isinstance(y.func, ast.Attribute) and y.func.value is x]
                 r.check(bool(par) and [norm(a) for a in par[0].args] == ["self.timeout", "self.reactor"], "%s#request.addTimeout" % f.qname,
